@@ -59,11 +59,11 @@ Project(c) ==
                 hasCanonicalId |-> c.published, hasEquivalentId |-> c.published,
                 hasCreated |-> c.published,
                 hasVersionId |-> c.versionId,
-                hasUpdated |-> c.versionId /\ c.updatedTime]]
+                hasUpdated |-> c.versionId /\ c.updatedTime # "none"]]   \* also when the update was anchored at the creation time
 
 Opts == [base : BOOLEAN, methodCtx : BOOLEAN]
-Flags == [published : BOOLEAN, deactivated : BOOLEAN, commitments : BOOLEAN, origin : BOOLEAN, versionId : BOOLEAN, updatedTime : BOOLEAN]
-DefaultFlags == [published |-> TRUE, deactivated |-> FALSE, commitments |-> TRUE, origin |-> FALSE, versionId |-> TRUE, updatedTime |-> TRUE]
+Flags == [published : BOOLEAN, deactivated : BOOLEAN, commitments : BOOLEAN, origin : BOOLEAN, versionId : BOOLEAN, updatedTime : {"none", "later", "same"}]
+DefaultFlags == [published |-> TRUE, deactivated |-> FALSE, commitments |-> TRUE, origin |-> FALSE, versionId |-> TRUE, updatedTime |-> "later"]
 
 KeySeqs == UNION {[1..n -> KeySpecs] : n \in 0..MaxKeys}
 Mk(keys, nsvc, naka, o, f) ==
